@@ -1179,3 +1179,138 @@ Proof.
   intros Hg Ha Hy. split; [apply surfer_matvec_mass; assumption|].
   intros j Hj. rewrite (surfer_matvec_spec g alpha y x j Hj). apply surfer_fun_kernel.
 Qed.
+
+(* ------------------------------------------------------------------------------------------ *)
+(** * Power iteration converges geometrically to the PageRank vector *)
+
+Lemma surfer_fun_minus n g alpha (y x x' : vec) j :
+  (surfer_fun n g (normalize g) alpha y (fun i => x i - x' i) j
+   == surfer_fun n g (normalize g) alpha y x j - surfer_fun n g (normalize g) alpha y x' j)%Q.
+Proof.
+  unfold surfer_fun. rewrite mv_minus.
+  rewrite (bsum_ext n (fun i => restart g alpha i * (x i - x' i))%Q
+                    (fun i => restart g alpha i * x i - restart g alpha i * x' i)%Q) by (intros; ring).
+  rewrite bsum_minus. ring.
+Qed.
+
+(** On vectors of zero mass the operator acts as alpha S with S column-stochastic: a contraction by alpha. *)
+Lemma surfer_contracts g alpha (y d : vec) :
+  good_graph g -> (0 <= alpha)%Q ->
+  (forall j, j < length g -> (0 <= y j)%Q) -> (vsum (length g) y == 1)%Q ->
+  (vsum (length g) d == 0)%Q ->
+  (norm1 (length g) (surfer_fun (length g) g (normalize g) alpha y d) <= alpha * norm1 (length g) d)%Q.
+Proof.
+  intros [Hwf Hnn] Ha Hy Hsy Hd. set (n := length g) in *.
+  destruct (P_facts g Hwf Hnn) as (Hpp & Hps & Hout). fold n in Hps.
+  set (S := fun j i => (alpha * P g i j + alpha * y j * (1 - has_out g i))%Q).
+  assert (Heq : forall j, j < n -> (surfer_fun n g (normalize g) alpha y d j == mv n S d j)%Q).
+  { intros j Hj. unfold surfer_fun, mv, S, restart, Ma.
+    rewrite (bsum_ext n (fun i => (alpha * P g i j + alpha * y j * (1 - has_out g i)) * d i)%Q
+                      (fun i => alpha * Pn (normalize g) i j * d i + (alpha * y j) * (d i - has_out g i * d i))%Q)
+      by (intros; unfold P; ring).
+    rewrite bsum_plus. rewrite (bsum_scale n (alpha * y j)). rewrite bsum_minus.
+    rewrite (bsum_ext n (fun i => (1 - alpha * has_out g i) * d i)%Q (fun i => d i - alpha * (has_out g i * d i))%Q) by (intros; ring).
+    rewrite bsum_minus. rewrite (bsum_scale n alpha). unfold vsum in Hd. rewrite Hd. ring. }
+  rewrite (norm1_ext n _ _ Heq).
+  apply norm1_contract_gen.
+  - intros j i Hj Hi. unfold S. assert (H1 := Hpp i j). assert (H2 := Hy j Hj).
+    destruct (Hout i) as [-> | ->]; nra.
+  - intros i Hi. unfold S. rewrite bsum_plus. rewrite bsum_scale. rewrite (Hps i).
+    rewrite (bsum_ext n (fun j => alpha * y j * (1 - has_out g i))%Q (fun j => (alpha * (1 - has_out g i)) * y j)%Q) by (intros; ring).
+    rewrite bsum_scale. unfold vsum in Hsy. rewrite Hsy. apply Qle_lteq. right. ring.
+Qed.
+
+Lemma vsub_length_same a b : length a = length b -> length (vsub a b) = length a.
+Proof. intros H. unfold vsub. rewrite map2_length, H. apply Nat.min_id. Qed.
+
+(** One coded step (operator, then division by the sum) on a probability vector. *)
+Lemma piteration_step_spec g alpha y x j :
+  good_graph g -> (0 <= alpha)%Q -> (vsum (length g) (V y) == 1)%Q -> (vsum (length g) (V x) == 1)%Q ->
+  j < length g ->
+  (V (piteration_step (surfer_matvec g alpha y) x) j == surfer_fun (length g) g (normalize g) alpha (V y) (V x) j)%Q.
+Proof.
+  intros Hg Ha Hy Hx Hj. unfold piteration_step. rewrite vnormalize_spec.
+  rewrite surfer_matvec_length. rewrite (surfer_matvec_mass g alpha y x Hg Ha Hy). rewrite Hx.
+  rewrite surfer_matvec_spec by exact Hj. field.
+Qed.
+
+Lemma piteration_step_length g alpha y x : length (piteration_step (surfer_matvec g alpha y) x) = length g.
+Proof. unfold piteration_step, vnormalize. rewrite map_length. apply surfer_matvec_length. Qed.
+
+Lemma piteration_step_mass g alpha y x :
+  good_graph g -> (0 <= alpha)%Q -> (vsum (length g) (V y) == 1)%Q -> (vsum (length g) (V x) == 1)%Q ->
+  (vsum (length g) (V (piteration_step (surfer_matvec g alpha y) x)) == 1)%Q.
+Proof.
+  intros Hg Ha Hy Hx. unfold vsum.
+  rewrite (bsum_ext (length g) _ (surfer_fun (length g) g (normalize g) alpha (V y) (V x))).
+  2:{ intros j Hj. apply piteration_step_spec; assumption. }
+  rewrite <- Hx. apply surfer_mass; assumption.
+Qed.
+
+Lemma piteration_step_contracts g alpha y x (p : vec) :
+  good_graph g -> (0 <= alpha)%Q ->
+  (forall j, j < length g -> (0 <= V y j)%Q) -> (vsum (length g) (V y) == 1)%Q ->
+  (vsum (length g) (V x) == 1)%Q ->
+  is_stationary (length g) (surfer_kernel (P g) (has_out g) alpha (V y)) p ->
+  (norm1 (length g) (fun j => V (piteration_step (surfer_matvec g alpha y) x) j - p j)
+   <= alpha * norm1 (length g) (fun j => V x j - p j))%Q.
+Proof.
+  intros Hg Ha Hy0 Hy Hx [Hp1 Hpf]. set (n := length g) in *.
+  set (d := fun j => (V x j - p j)%Q).
+  assert (Hd : (vsum n d == 0)%Q) by (unfold d; rewrite vsum_minus, Hx, Hp1; ring).
+  rewrite (norm1_ext n _ (surfer_fun n g (normalize g) alpha (V y) d)).
+  - apply surfer_contracts; assumption.
+  - intros j Hj. unfold d. rewrite surfer_fun_minus.
+    rewrite (piteration_step_spec g alpha y x j Hg Ha Hy Hx Hj).
+    rewrite (Hpf j Hj) at 1. rewrite <- surfer_fun_kernel. reflexivity.
+Qed.
+
+Lemma V_vsub a b j : length a = length b -> (V (vsub a b) j == V a j - V b j)%Q.
+Proof.
+  intros L. destruct (Nat.lt_ge_cases j (length a)) as [H|H].
+  - unfold vsub. apply (V_map2_Qred Qminus); [exact H|rewrite <- L; exact H].
+  - rewrite !V_overflow; try lia; [ring|]. unfold vsub. rewrite map2_length. lia.
+Qed.
+
+(** The coded loop (n_iter steps, early exit when two successive iterates are closer than tol, in which
+    case the OLDER iterate is returned): the error never grows, and it is either below alpha^n_iter times
+    the initial error or below tol / (1 - alpha). *)
+Theorem piteration_error_proof g alpha y (p : vec) n_iter tol x :
+  good_graph g -> (0 <= alpha < 1)%Q -> length x = length g ->
+  (forall j, j < length g -> (0 <= V y j)%Q) -> (vsum (length g) (V y) == 1)%Q ->
+  (vsum (length g) (V x) == 1)%Q ->
+  is_stationary (length g) (surfer_kernel (P g) (has_out g) alpha (V y)) p ->
+  let r := piteration_loop n_iter (surfer_matvec g alpha y) tol x in
+  let e0 := norm1 (length g) (fun j => V x j - p j)%Q in
+  let e := norm1 (length g) (fun j => V r j - p j)%Q in
+  (vsum (length g) (V r) == 1)%Q /\ (e <= e0)%Q /\ ((e <= apow alpha n_iter * e0)%Q \/ (e <= tol / (1 - alpha))%Q).
+Proof.
+  intros Hg [Ha0 Ha1] Lx Hy0 Hy Hx Hp. cbv zeta. set (n := length g) in *.
+  revert x Lx Hx. induction n_iter as [|k IH]; intros x Lx Hx; cbn [piteration_loop apow].
+  - split; [exact Hx|]. split; [apply Qle_refl|]. left. rewrite Qmult_1_l. apply Qle_refl.
+  - set (x' := piteration_step (surfer_matvec g alpha y) x).
+    assert (Lx' : length x' = n) by apply piteration_step_length.
+    assert (Hx' : (vsum n (V x') == 1)%Q) by (apply piteration_step_mass; assumption).
+    assert (Hc := piteration_step_contracts g alpha y x p Hg Ha0 Hy0 Hy Hx Hp). fold n x' in Hc.
+    assert (He0 := norm1_nonneg n (fun j => V x j - p j)%Q).
+    set (e0 := norm1 n (fun j => V x j - p j)%Q) in *.
+    set (e1 := norm1 n (fun j => V x' j - p j)%Q) in *.
+    destruct (Qltb (lnorm1 (vsub x x')) tol) eqn:E.
+    + split; [exact Hx|]. split; [apply Qle_refl|]. right.
+      apply Qltb_lt in E. unfold lnorm1 in E. rewrite Qred_correct in E.
+      rewrite vsub_length_same in E by lia. rewrite Lx in E. fold n in E.
+      assert (Hdiff : (norm1 n (V (vsub x x')) == norm1 n (fun j => V x j - V x' j))%Q).
+      { apply norm1_ext. intros j _. apply V_vsub. lia. }
+      rewrite Hdiff in E.
+      assert (Htri : (e0 <= norm1 n (fun j => V x j - V x' j) + e1)%Q).
+      { unfold e0, e1. eapply Qle_trans; [|apply norm1_triangle].
+        apply Qle_lteq. right. apply norm1_ext. intros j _. ring. }
+      change (e0 <= tol / (1 - alpha))%Q.
+      set (D := norm1 n (fun j => V x j - V x' j)%Q) in *.
+      apply Qle_shift_div_l; [lra|]. nra.
+    + destruct (IH x' Lx' Hx') as (Hs & Hmono & Hb). fold e1 in Hmono, Hb.
+      assert (Hp0 := apow_nonneg alpha k Ha0).
+      split; [exact Hs|]. split; [nra|].
+      destruct Hb as [Hb|Hb]; [left|right; exact Hb].
+      eapply Qle_trans; [exact Hb|]. nra.
+Qed.
